@@ -198,13 +198,13 @@ def rejected_oracle(ctx, case, full, stats):
                              py=show_safe(full, oids)), rank=60 + len(repr(p)))
 
 
-LOOSE = object()
 KNOWN_DIRECT = {e['id'] for e in common.load_known('C03') if e.get('status') == 'known'}
 
 
 def ref_unwind(docs, opts):
-    """the flat map `$unwind` denotes, for the plain cases (top-level path, every value of the
-    field an array / null / missing); None when this reference does not want to answer"""
+    """the flat map `$unwind` denotes on a top-level path (one document per element, the index
+    written where includeArrayIndex says — null on a value that is no array and on a document
+    kept by preserveNullAndEmptyArrays); None when this reference does not want to answer"""
     if isinstance(docs, Exception) or docs is None:
         return None
     if isinstance(opts, str):
@@ -227,6 +227,20 @@ def ref_unwind(docs, opts):
     field = path[1:]
     if idx is not None and (idx == field or idx.startswith(field + '.') or idx.startswith('_id')):
         return None
+    def with_index(nd, i):
+        # the index is written last; a dotted name creates the sub-documents it goes through and
+        # replaces whatever is in its way without being a document
+        if idx is None:
+            return nd
+        cur = nd
+        parts = idx.split('.')
+        for q in parts[:-1]:
+            if not isinstance(cur.get(q), dict):
+                cur[q] = {}
+            cur = cur[q]
+        cur[parts[-1]] = i
+        return nd
+
     out = []
     for d in docs:
         if not isinstance(d, dict):
@@ -234,24 +248,20 @@ def ref_unwind(docs, opts):
         v = d.get(field)
         if v is None or v == []:
             if pres:
-                out.append(LOOSE)
+                # kept once, without the empty array, with a null index
+                nd = copy.deepcopy(d)
+                if v == [] and field in nd:
+                    del nd[field]
+                out.append(with_index(nd, None))
             continue
         if not isinstance(v, list):
-            return None
+            # a value that is no array counts as a one-element array; its index is null
+            out.append(with_index(copy.deepcopy(d), None))
+            continue
         for i, e in enumerate(v):
             nd = copy.deepcopy(d)
             nd[field] = copy.deepcopy(e)
-            if idx is not None:
-                cur = nd
-                parts = idx.split('.')
-                for q in parts[:-1]:
-                    if q not in cur:
-                        cur[q] = {}
-                    cur = cur[q]
-                    if not isinstance(cur, dict):
-                        return None
-                cur[parts[-1]] = i
-            out.append(nd)
+            out.append(with_index(nd, i))
     return out
 
 
@@ -322,10 +332,6 @@ def direct_oracles(ctx, case, db, stats):
         name = 'unwind=flat map'
         got = agg(coll, [{'$unwind': copy.deepcopy(opts)}])
         want = ref_unwind(attempt(lambda: list(coll.find())), opts)
-        if not isinstance(got, Exception) and want is not None and len(got) == len(want):
-            # documents kept by preserveNullAndEmptyArrays are not judged here (finding unwindindex)
-            got = [g for g, w in zip(got, want) if w is not LOOSE]
-            want = [w for w in want if w is not LOOSE]
     elif op in ('$addFields', '$set') and isinstance(opts, dict) and len(opts) >= 2 and \
             all(isinstance(k, str) and k and '.' not in k and not k.startswith('$') for k in opts):
         # every entry is evaluated against the document that ENTERED the stage: the stage equals
@@ -357,20 +363,6 @@ def direct_oracles(ctx, case, db, stats):
     if name is None:
         return
     stats[name] += 1
-    if name == 'unwind=flat map' and isinstance(got, Exception) and isinstance(opts, dict) and \
-            '.' in str(opts.get('includeArrayIndex') or '') and \
-            'unwindindexparent' in KNOWN_DIRECT:
-        # listed finding: includeArrayIndex under a missing parent raises KeyError
-        parent = opts['includeArrayIndex'].rsplit('.', 1)[0].split('.')
-        def has(d):
-            for q in parent:
-                if not isinstance(d, dict) or q not in d:
-                    return False
-                d = d[q]
-            return isinstance(d, dict)
-        if not all(has(d) for d in docs):
-            ctx.known_seen['unwindindexparent'] = ctx.known_seen.get('unwindindexparent', 0) + 1
-            return
     if not same(got, want):
         oids = wire.Oids()
         ctx.violation(render(case, kind='the aggregation stage disagrees with the find path: '
